@@ -108,6 +108,10 @@ def run(cx, out):
             out.ob('R18.2', 'Decode::skip default [%s]' % cfg, ok, 'default skip is not decode(input).map(|_| ()): %s -> %s' % (sym.tstr(t), sym.vstr(v)), d['loc'])
         else:
             out.fail('R18.2', 'Decode::skip default [%s]' % cfg, 'not found', '-')
+    # premise: "the collection's true length" presupposes that the count an encoder writes is the length, not a truncation
+    # of it (C15 R15.1: every narrowing of a length on an encoding path is range-checked)
+    from . import shared
+    shared.premises(cx, out, {'c15': {'R15.1'}})
     # derived code: a `skip` the derive macros generate must mirror the derived `decode` (derive corpus of C05)
     from . import c05 as _c05
     from .. import facts as _fm
